@@ -401,15 +401,31 @@ pub(crate) fn begin_keywords(version: &str) {
         _ => (),
     });
     #[cfg(feature = "verif-hooks")]
-    crate::verif_hooks::event(crate::verif_hooks::EventKind::BeginKeywords, verif_version_stack().len());
+    crate::verif_hooks::event(
+        if version == "directive" {
+            crate::verif_hooks::EventKind::BeginKeywordsDirective
+        } else {
+            crate::verif_hooks::EventKind::BeginKeywords
+        },
+        verif_version_stack().len(),
+    );
 }
 
 pub(crate) fn end_keywords() {
+    #[cfg(feature = "verif-hooks")]
+    let verif_top_is_directive = verif_version_stack().last().map(|x| x == "Directive").unwrap_or(false);
     CURRENT_VERSION.with(|current_version| {
         current_version.borrow_mut().pop();
     });
     #[cfg(feature = "verif-hooks")]
-    crate::verif_hooks::event(crate::verif_hooks::EventKind::EndKeywords, verif_version_stack().len());
+    crate::verif_hooks::event(
+        if verif_top_is_directive {
+            crate::verif_hooks::EventKind::EndKeywordsDirective
+        } else {
+            crate::verif_hooks::EventKind::EndKeywords
+        },
+        verif_version_stack().len(),
+    );
 }
 
 #[cfg(feature = "verif-hooks")]
